@@ -520,6 +520,8 @@ def compare_outcomes(ref, got):
     if ref["outcome"] == "raise":
         if ref["type"] != got["type"]:
             return f"exception type differs: fresh {ref['type']} vs after history {got['type']}"
+        if ref["type"] in ("RecursionError", "MemoryError") and ref["type"] == got["type"]:
+            return None  # where exactly the interpreter gives up is not part of the error (the text varies with the depth)
         if ref["msg"] != got["msg"]:
             return f"exception message differs: fresh {ref['msg'][:200]!r} vs after history {got['msg'][:200]!r}"
         return None
